@@ -330,32 +330,107 @@ theorem integral_of_icert (c : ICert) (mask : List (List Bool)) (k : Nat)
       (abs_nonneg _)
   · rw [hsupp r l hm]; simp
 
-/-- **T1.4, the constant.**  `b₀² = 1/(4π)` to six digits: `|b₀²·4π − 1| ≤ 10⁻⁶`, so that
- `∫synth(x) ≈ r²·√(4π)·x₀₀` (`b₀ > 0`). -/
+/-- **T1.4, the constant.**  `b₀² = 1/(4π)` to fifteen digits: `|b₀²·4π − 1| ≤ 10⁻¹⁵` for the basis
+ constants the code computed in float64 (measured `−5.2·10⁻¹⁷`), so that
+ `∫synth(x) ≈ r²·√(4π)·x₀₀` (`b₀ > 0`).  Uses Mathlib's 20-digit bounds on `π`. -/
 theorem b0_sq_four_pi (c : ICert) (h : c.b0sqOk = true) :
-    0 < c.b0q ∧ |((c.b0q : ℚ) : ℝ) ^ 2 * (4 * Real.pi) - 1| ≤ 1 / 1000000 := by
+    0 < c.b0q ∧ |((c.b0q : ℚ) : ℝ) ^ 2 * (4 * Real.pi) - 1| ≤ 1 / 10 ^ 15 := by
   refine ⟨c.b0q_pos h, ?_⟩
   obtain ⟨h1, h2⟩ := c.b0sqOk_sound h
-  have r1 : ((87496354673 : ℚ) / 2 ^ 40 : ℚ) ≤ c.b0q ^ 2 := h1
-  have q1 : (87496354673 : ℝ) / 2 ^ 40 ≤ ((c.b0q : ℚ) : ℝ) ^ 2 := by
+  have r1 : ((96203260011544519986650 : ℚ) / 2 ^ 80 : ℚ) ≤ c.b0q ^ 2 := h1
+  have q1 : (96203260011544519986650 : ℝ) / 2 ^ 80 ≤ ((c.b0q : ℚ) : ℝ) ^ 2 := by
     have := (Rat.cast_le (K := ℝ)).2 r1
     push_cast at this; exact this
-  have q2 : ((c.b0q : ℚ) : ℝ) ^ 2 ≤ (87496355774 : ℝ) / 2 ^ 40 := by
+  have q2 : ((c.b0q : ℚ) : ℝ) ^ 2 ≤ (96203260011544712392863 : ℝ) / 2 ^ 80 := by
     have := (Rat.cast_le (K := ℝ)).2 h2
     push_cast at this; exact this
-  have p1 := Real.pi_gt_d6
-  have p2 := Real.pi_lt_d6
+  have p1 := Real.pi_gt_d20
+  have p2 := Real.pi_lt_d20
   have hpos : (0 : ℝ) ≤ ((c.b0q : ℚ) : ℝ) ^ 2 := sq_nonneg _
   rw [abs_le]
   constructor
-  · have : (87496354673 : ℝ) / 2 ^ 40 * (4 * 3.141592) ≤ ((c.b0q : ℚ) : ℝ) ^ 2 * (4 * Real.pi) :=
+  · have : (96203260011544519986650 : ℝ) / 2 ^ 80 * (4 * 3.14159265358979323846)
+        ≤ ((c.b0q : ℚ) : ℝ) ^ 2 * (4 * Real.pi) :=
       mul_le_mul q1 (by linarith) (by norm_num) hpos
-    have e : (1 : ℝ) - 1 / 1000000 ≤ (87496354673 : ℝ) / 2 ^ 40 * (4 * 3.141592) := by norm_num
+    have e : (1 : ℝ) - 1 / 10 ^ 15
+        ≤ (96203260011544519986650 : ℝ) / 2 ^ 80 * (4 * 3.14159265358979323846) := by norm_num
     linarith
-  · have : ((c.b0q : ℚ) : ℝ) ^ 2 * (4 * Real.pi) ≤ (87496355774 : ℝ) / 2 ^ 40 * (4 * 3.141593) :=
+  · have : ((c.b0q : ℚ) : ℝ) ^ 2 * (4 * Real.pi)
+        ≤ (96203260011544712392863 : ℝ) / 2 ^ 80 * (4 * 3.14159265358979323847) :=
       mul_le_mul q2 (by linarith) (by positivity) (by norm_num)
-    have e : (87496355774 : ℝ) / 2 ^ 40 * (4 * 3.141593) ≤ 1 + 1 / 1000000 := by norm_num
+    have e : (96203260011544712392863 : ℝ) / 2 ^ 80 * (4 * 3.14159265358979323847)
+        ≤ 1 + 1 / 10 ^ 15 := by norm_num
     linarith
+
+/-- the interval of `b0sqOk` is not vacuous and is as tight as the statement: its width is
+ `< 2.1·10⁻¹⁵` relative, and a constant off by `10⁻¹⁴` relative is rejected -/
+theorem b0sq_interval_tight :
+    ICert.b0sqLo < ICert.b0sqHi ∧
+    (ICert.b0sqHi - ICert.b0sqLo) * 10 ^ 15 < 21 * ICert.b0sqLo / 10 ∧
+    ICert.b0sqHi * 10 ^ 14 < ICert.b0sqLo * (10 ^ 14 + 1) := by
+  decide +kernel
+
+/-- **the 8-digit literal** `_CONSTANT_NORMALIZATION_FACTOR = 3.5449077` of
+ `primitive_equations.py` ("a constant field of ones has this value in entry [0, 0]") is `√(4π)`
+ within its stated digits: `|3.5449077 − √(4π)| ≤ 2·10⁻⁹` (half a unit of the last digit is
+ `5·10⁻⁸`), i.e. relative error `≤ 5.7·10⁻¹⁰` -/
+theorem constant_normalization_literal :
+    |(3.5449077 : ℝ) - Real.sqrt (4 * Real.pi)| ≤ 2 / 10 ^ 9 := by
+  have p1 := Real.pi_gt_d20
+  have p2 := Real.pi_lt_d20
+  rw [abs_le]
+  constructor
+  · -- √(4π) ≤ 3.5449077 + 2e-9
+    have h : Real.sqrt (4 * Real.pi) ≤ 3.5449077 + 2 / 10 ^ 9 := by
+      rw [show (3.5449077 + 2 / 10 ^ 9 : ℝ) = Real.sqrt ((3.5449077 + 2 / 10 ^ 9) ^ 2) by
+        rw [Real.sqrt_sq (by norm_num)]]
+      apply Real.sqrt_le_sqrt
+      have : (4 : ℝ) * 3.14159265358979323847 ≤ (3.5449077 + 2 / 10 ^ 9) ^ 2 := by norm_num
+      linarith
+    linarith
+  · have h : (3.5449077 : ℝ) - 2 / 10 ^ 9 ≤ Real.sqrt (4 * Real.pi) := by
+      rw [show (3.5449077 - 2 / 10 ^ 9 : ℝ) = Real.sqrt ((3.5449077 - 2 / 10 ^ 9) ^ 2) by
+        rw [Real.sqrt_sq (by norm_num)]]
+      apply Real.sqrt_le_sqrt
+      have : ((3.5449077 : ℝ) - 2 / 10 ^ 9) ^ 2 ≤ 4 * 3.14159265358979323846 := by norm_num
+      linarith
+    linarith
+
+/-- the literal against the basis constant the code computes: the spectral coefficient of the
+ constant field `1` is `1/b₀`, and `|3.5449077·b₀ − 1| ≤ 10⁻⁹` for every certified basis -/
+theorem constant_normalization_vs_b0 (c : ICert) (h : c.b0sqOk = true) :
+    |(3.5449077 : ℝ) * ((c.b0q : ℚ) : ℝ) - 1| ≤ 1 / 10 ^ 9 := by
+  obtain ⟨hb, hsq⟩ := b0_sq_four_pi c h
+  have hlit := constant_normalization_literal
+  have hb' : (0 : ℝ) < ((c.b0q : ℚ) : ℝ) := by exact_mod_cast hb
+  set b : ℝ := ((c.b0q : ℚ) : ℝ)
+  set s : ℝ := Real.sqrt (4 * Real.pi)
+  have hs2 : s ^ 2 = 4 * Real.pi := Real.sq_sqrt (by positivity)
+  have hs0 : 0 ≤ s := Real.sqrt_nonneg _
+  have p1 := Real.pi_gt_d20
+  have hs1 : (3.5 : ℝ) ≤ s := by
+    rw [show (3.5 : ℝ) = Real.sqrt (3.5 ^ 2) by rw [Real.sqrt_sq (by norm_num)]]
+    apply Real.sqrt_le_sqrt; norm_num; linarith
+  -- |b·s − 1| ≤ |b²s² − 1| since b·s + 1 ≥ 1
+  have hbs : |b * s - 1| ≤ 1 / 10 ^ 15 := by
+    have hfac : b ^ 2 * (4 * Real.pi) - 1 = (b * s - 1) * (b * s + 1) := by rw [← hs2]; ring
+    rw [hfac, abs_mul] at hsq
+    have h1 : (1 : ℝ) ≤ |b * s + 1| := by
+      rw [abs_of_nonneg (by positivity)]; nlinarith [mul_nonneg hb'.le hs0]
+    calc |b * s - 1| ≤ |b * s - 1| * |b * s + 1| := le_mul_of_one_le_right (abs_nonneg _) h1
+      _ ≤ 1 / 10 ^ 15 := hsq
+  -- b ≤ (1 + 1e-15)/3.5
+  have hbub : b ≤ 0.2858 := by
+    have := (abs_le.1 hbs).2
+    nlinarith
+  have e : (3.5449077 : ℝ) * b - 1 = (3.5449077 - s) * b + (b * s - 1) := by ring
+  rw [e]
+  calc |(3.5449077 - s) * b + (b * s - 1)| ≤ |(3.5449077 - s) * b| + |b * s - 1| := abs_add_le _ _
+    _ = |3.5449077 - s| * b + |b * s - 1| := by rw [abs_mul, abs_of_pos hb']
+    _ ≤ 2 / 10 ^ 9 * 0.2858 + 1 / 10 ^ 15 := by
+        apply add_le_add _ hbs
+        exact mul_le_mul hlit hbub hb'.le (by norm_num)
+    _ ≤ 1 / 10 ^ 9 := by norm_num
 
 /-- **quadrature exactness, certificate form**: the latitude nodes and weights returned by scipy /
  `_compute_weights` integrate every monomial up to the degree the spacing rule promises -/
@@ -386,8 +461,12 @@ theorem integral_g0 : ∀ (r2 : ℚ) (x : List (List ℚ)), (∀ row ∈ x, row.
       ≤ |r2| * (1 / 2 ^ 40 * ∑ r' ∈ range g0.R, ∑ l' ∈ range g0.L, |ent2 x r' l'|) :=
   integral_of_icert g0 g0_mask 40 g0_shape g0_colint (by decide) (by decide)
 
-theorem b0_g0 : 0 < g0.b0q ∧ |((g0.b0q : ℚ) : ℝ) ^ 2 * (4 * Real.pi) - 1| ≤ 1 / 1000000 :=
+theorem b0_g0 : 0 < g0.b0q ∧ |((g0.b0q : ℚ) : ℝ) ^ 2 * (4 * Real.pi) - 1| ≤ 1 / 10 ^ 15 :=
   b0_sq_four_pi g0 g0_b0sq
+
+/-- non-vacuity of `constant_normalization_vs_b0`: the literal against the constant of grid `g0` -/
+example : |(3.5449077 : ℝ) * ((g0.b0q : ℚ) : ℝ) - 1| ≤ 1 / 10 ^ 9 :=
+  constant_normalization_vs_b0 g0 g0_b0sq
 
 theorem roundtrip_g1 : ∀ (x : List (List ℚ)), (∀ row ∈ x, row.length ≤ g1.L) →
     (∀ r' l', (g1_mask.getD r' []).getD l' false ≠ true → ent2 x r' l' = 0) →
@@ -402,7 +481,7 @@ theorem integral_g1 : ∀ (r2 : ℚ) (x : List (List ℚ)), (∀ row ∈ x, row.
       ≤ |r2| * (1 / 2 ^ 40 * ∑ r' ∈ range g1.R, ∑ l' ∈ range g1.L, |ent2 x r' l'|) :=
   integral_of_icert g1 g1_mask 40 g1_shape g1_colint (by decide) (by decide)
 
-theorem b0_g1 : 0 < g1.b0q ∧ |((g1.b0q : ℚ) : ℝ) ^ 2 * (4 * Real.pi) - 1| ≤ 1 / 1000000 :=
+theorem b0_g1 : 0 < g1.b0q ∧ |((g1.b0q : ℚ) : ℝ) ^ 2 * (4 * Real.pi) - 1| ≤ 1 / 10 ^ 15 :=
   b0_sq_four_pi g1 g1_b0sq
 
 theorem roundtrip_g2 : ∀ (x : List (List ℚ)), (∀ row ∈ x, row.length ≤ g2.L) →
@@ -425,7 +504,7 @@ theorem integral_g2 : ∀ (r2 : ℚ) (x : List (List ℚ)), (∀ row ∈ x, row.
       ≤ |r2| * (1 / 2 ^ 40 * ∑ r' ∈ range g2.R, ∑ l' ∈ range g2.L, |ent2 x r' l'|) :=
   integral_of_icert g2 g2_mask 40 g2_shape g2_colint (by decide) (by decide)
 
-theorem b0_g2 : 0 < g2.b0q ∧ |((g2.b0q : ℚ) : ℝ) ^ 2 * (4 * Real.pi) - 1| ≤ 1 / 1000000 :=
+theorem b0_g2 : 0 < g2.b0q ∧ |((g2.b0q : ℚ) : ℝ) ^ 2 * (4 * Real.pi) - 1| ≤ 1 / 10 ^ 15 :=
   b0_sq_four_pi g2 g2_b0sq
 
 theorem roundtrip_g3 : ∀ (x : List (List ℚ)), (∀ row ∈ x, row.length ≤ g3.L) →
@@ -448,7 +527,7 @@ theorem integral_g3 : ∀ (r2 : ℚ) (x : List (List ℚ)), (∀ row ∈ x, row.
       ≤ |r2| * (1 / 2 ^ 40 * ∑ r' ∈ range g3.R, ∑ l' ∈ range g3.L, |ent2 x r' l'|) :=
   integral_of_icert g3 g3_mask 40 g3_shape g3_colint (by decide) (by decide)
 
-theorem b0_g3 : 0 < g3.b0q ∧ |((g3.b0q : ℚ) : ℝ) ^ 2 * (4 * Real.pi) - 1| ≤ 1 / 1000000 :=
+theorem b0_g3 : 0 < g3.b0q ∧ |((g3.b0q : ℚ) : ℝ) ^ 2 * (4 * Real.pi) - 1| ≤ 1 / 10 ^ 15 :=
   b0_sq_four_pi g3 g3_b0sq
 
 theorem roundtrip_g4 : ∀ (x : List (List ℚ)), (∀ row ∈ x, row.length ≤ g4.L) →
@@ -464,7 +543,7 @@ theorem integral_g4 : ∀ (r2 : ℚ) (x : List (List ℚ)), (∀ row ∈ x, row.
       ≤ |r2| * (1 / 2 ^ 40 * ∑ r' ∈ range g4.R, ∑ l' ∈ range g4.L, |ent2 x r' l'|) :=
   integral_of_icert g4 g4_mask 40 g4_shape g4_colint (by decide) (by decide)
 
-theorem b0_g4 : 0 < g4.b0q ∧ |((g4.b0q : ℚ) : ℝ) ^ 2 * (4 * Real.pi) - 1| ≤ 1 / 1000000 :=
+theorem b0_g4 : 0 < g4.b0q ∧ |((g4.b0q : ℚ) : ℝ) ^ 2 * (4 * Real.pi) - 1| ≤ 1 / 10 ^ 15 :=
   b0_sq_four_pi g4 g4_b0sq
 
 theorem roundtrip_g5 : ∀ (x : List (List ℚ)), (∀ row ∈ x, row.length ≤ g5.L) →
@@ -480,7 +559,7 @@ theorem integral_g5 : ∀ (r2 : ℚ) (x : List (List ℚ)), (∀ row ∈ x, row.
       ≤ |r2| * (1 / 2 ^ 40 * ∑ r' ∈ range g5.R, ∑ l' ∈ range g5.L, |ent2 x r' l'|) :=
   integral_of_icert g5 g5_mask 40 g5_shape g5_colint (by decide) (by decide)
 
-theorem b0_g5 : 0 < g5.b0q ∧ |((g5.b0q : ℚ) : ℝ) ^ 2 * (4 * Real.pi) - 1| ≤ 1 / 1000000 :=
+theorem b0_g5 : 0 < g5.b0q ∧ |((g5.b0q : ℚ) : ℝ) ^ 2 * (4 * Real.pi) - 1| ≤ 1 / 10 ^ 15 :=
   b0_sq_four_pi g5 g5_b0sq
 
 theorem roundtrip_g6 : ∀ (x : List (List ℚ)), (∀ row ∈ x, row.length ≤ g6.L) →
@@ -496,7 +575,7 @@ theorem integral_g6 : ∀ (r2 : ℚ) (x : List (List ℚ)), (∀ row ∈ x, row.
       ≤ |r2| * (1 / 2 ^ 40 * ∑ r' ∈ range g6.R, ∑ l' ∈ range g6.L, |ent2 x r' l'|) :=
   integral_of_icert g6 g6_mask 40 g6_shape g6_colint (by decide) (by decide)
 
-theorem b0_g6 : 0 < g6.b0q ∧ |((g6.b0q : ℚ) : ℝ) ^ 2 * (4 * Real.pi) - 1| ≤ 1 / 1000000 :=
+theorem b0_g6 : 0 < g6.b0q ∧ |((g6.b0q : ℚ) : ℝ) ^ 2 * (4 * Real.pi) - 1| ≤ 1 / 10 ^ 15 :=
   b0_sq_four_pi g6 g6_b0sq
 
 theorem roundtrip_g7 : ∀ (x : List (List ℚ)), (∀ row ∈ x, row.length ≤ g7.L) →
@@ -519,7 +598,7 @@ theorem integral_g7 : ∀ (r2 : ℚ) (x : List (List ℚ)), (∀ row ∈ x, row.
       ≤ |r2| * (1 / 2 ^ 40 * ∑ r' ∈ range g7.R, ∑ l' ∈ range g7.L, |ent2 x r' l'|) :=
   integral_of_icert g7 g7_mask 40 g7_shape g7_colint (by decide) (by decide)
 
-theorem b0_g7 : 0 < g7.b0q ∧ |((g7.b0q : ℚ) : ℝ) ^ 2 * (4 * Real.pi) - 1| ≤ 1 / 1000000 :=
+theorem b0_g7 : 0 < g7.b0q ∧ |((g7.b0q : ℚ) : ℝ) ^ 2 * (4 * Real.pi) - 1| ≤ 1 / 10 ^ 15 :=
   b0_sq_four_pi g7 g7_b0sq
 
 /-- the `Fx`-literal form of the same certificate (grid `g0`), through `roundtrip_of_cert` -/
